@@ -9,6 +9,7 @@
      unpack <hexpacket>          vorbis_synthesis_headerin on an arbitrary comment packet
      query <taghex> <n>          on the last successfully unpacked list
      count <taghex>
+     vfround <seed> <entries> <len|0=mixed> <seekable> <chunk>     (harness only) the list through encoder headers, Ogg pages and ov_open_callbacks / ov_comment
 */
 static unsigned char c16_ident[30]={1,'v','o','r','b','i','s',0,0,0,0,2,0x44,0xac,0,0,0,0,0,0,0,0xee,2,0,0,0,0,0,0xb8,1};
 
@@ -47,6 +48,43 @@ static void c16_pack_unpack(vorbis_comment *vc){
     c16_unpack_packet(op.packet,op.bytes);
     ogg_packet_clear(&op);
   }
+}
+
+/* the same round trip through a whole Ogg stream and vorbisfile: the encoder's three headers (comment header of any size: it may span many
+   pages) and a little audio are paged into memory, opened with ov_open_callbacks, and ov_comment() is compared entry by entry */
+#include "mkstream.h"
+static void c16_vfround(long seed,int nent,long len,int seekable,long chunk){
+  vorbis_info vi; vorbis_comment vc; vorbis_dsp_state vd; vorbis_block vb; ogg_stream_state os; ogg_page og; ogg_packet op,h0,h1,h2;
+  buf_t out={0,0,0}; memsrc ms; OggVorbis_File vf; int i,rc,eos=0,hdrpages=0; long done=0,N=3000; uint32_t st=(uint32_t)(seed*2654435761u+977u)|1;
+  vorbis_info_init(&vi);
+  if(vorbis_encode_init_vbr(&vi,1,8000,0.1f)){ printf("vfround rc=setup\n"); vorbis_info_clear(&vi); return; }
+  vorbis_comment_init(&vc);
+  vc.comments=nent; vc.user_comments=calloc(nent+1,sizeof(char*)); vc.comment_lengths=calloc(nent+1,sizeof(int));
+  for(i=0;i<nent;i++){ long j,L=len>0?len:(long)(st%97); char *e=malloc(L+1); int k=snprintf(e,L+1,"K%d=",i%7); if(k>L)k=L;
+    for(j=k;j<L;j++){ st^=st<<13; st^=st>>17; st^=st<<5; e[j]=(char)(st>>11); } e[L]=0; vc.user_comments[i]=e; vc.comment_lengths[i]=(int)L; st^=st<<13; st^=st>>17; st^=st<<5; }
+  vorbis_analysis_init(&vd,&vi); vorbis_block_init(&vd,&vb); ogg_stream_init(&os,4242);
+  vorbis_analysis_headerout(&vd,&vc,&h0,&h1,&h2);
+  ogg_stream_packetin(&os,&h0); ogg_stream_packetin(&os,&h1); ogg_stream_packetin(&os,&h2);
+  while(ogg_stream_flush(&os,&og)){ buf_page(&out,&og); hdrpages++; }
+  while(!eos){
+    long todo=N-done,j; if(todo>1024)todo=1024;
+    if(todo>0){ float **b=vorbis_analysis_buffer(&vd,todo); for(j=0;j<todo;j++)b[0][j]=0.3f*sinf(0.05f*(float)(done+j)); vorbis_analysis_wrote(&vd,todo); done+=todo; }
+    else vorbis_analysis_wrote(&vd,0);
+    while(vorbis_analysis_blockout(&vd,&vb)==1){ vorbis_analysis(&vb,NULL); vorbis_bitrate_addblock(&vb);
+      while(vorbis_bitrate_flushpacket(&vd,&op)){ ogg_stream_packetin(&os,&op); while(ogg_stream_pageout(&os,&og)){ buf_page(&out,&og); if(ogg_page_eos(&og))eos=1; } } }
+    if(todo<=0&&!eos){ while(ogg_stream_flush(&os,&og))buf_page(&out,&og); break; }
+  }
+  ms_init(&ms,out.p,out.n,seekable); ms.chunk=chunk;
+  rc=ov_open_callbacks(&ms,&vf,NULL,0,ms_callbacks(seekable));
+  if(rc){ printf("vfround rc=%s hdrpages=%d bytes=%ld\n",ovname(rc),hdrpages,out.n); }
+  else{
+    vorbis_comment *g=ov_comment(&vf,-1); int same=(g&&g->comments==nent&&g->vendor!=NULL); long total=-1;
+    for(i=0;same&&i<nent;i++) if(g->comment_lengths[i]!=vc.comment_lengths[i]||memcmp(g->user_comments[i],vc.user_comments[i],vc.comment_lengths[i]))same=0;
+    total=(long)ov_pcm_total(&vf,-1);
+    printf("vfround rc=0 n=%d same=%d total=%ld hdrpages=%d bytes=%ld\n",g?g->comments:-1,same,total,hdrpages,out.n);
+    ov_clear(&vf);
+  }
+  free(out.p); ogg_stream_clear(&os); vorbis_block_clear(&vb); vorbis_dsp_clear(&vd); vorbis_comment_clear(&vc); vorbis_info_clear(&vi);
 }
 
 static int c16_main(int argc,char **argv){
@@ -89,6 +127,8 @@ static int c16_main(int argc,char **argv){
         }
       }
       free(t.p);
+    }else if(!strcmp(tok[0],"vfround")&&n>=6){
+      c16_vfround(atol(tok[1]),atoi(tok[2]),atol(tok[3]),atoi(tok[4]),atol(tok[5]));
     }else if(!strcmp(tok[0],"count")){
       bytes_t t=unhex(tok[1]);
       if(!c16_have) printf("count nolist\n");
